@@ -234,6 +234,18 @@ def oracle_only_needed(src, ops, tail):
                 continue
             roots_end = [r for r, n in op.nodes.items() if n is not None and n["obs"] > 0]
             allowed = cone(prev.nodes, live_before) | cone(op.nodes, roots_end) | cone(op.nodes, live_before)
+            # nodes a bind closure created during this very stabilise: the bind was in a cone when its closure ran (its
+            # lhs-change node is allowed), even if a later switch in the same stabilise took the bind out of every cone
+            grew = True
+            while grew:
+                grew = False
+                for r, n in op.nodes.items():
+                    if r in allowed or n is None or r in prev.nodes:
+                        continue
+                    sc = n.get("scope", "T")
+                    if sc.startswith("B") and sc[1:].isdigit() and int(sc[1:]) in allowed:
+                        allowed.add(r)
+                        grew = True
             extra = ran - allowed
             if extra:
                 return (f"op {op.idx}: nodes {sorted(extra)} were computed but are in the cone of no live observer "
